@@ -623,6 +623,11 @@ example : BInv Props.MMSTEx.cfg Props.MMSTEx.st ∧ BInv Props.MMSTEx.cfg Props.
     Feasible Props.MMSTEx.cfg Props.MMSTEx.st ∧ certBinary Props.MMSTEx.st = true := by decide +kernel
 /-- the upper bound of `node_types` is attained (an unconnected node of the last agent shows `2·1 + 1 = 3 = 2A - 1`) -/
 example : (observeL1 Props.MMSTEx.cfg Props.MMSTEx.st).nodeTypes = [0, 1, -1, 2, 3] := by decide +kernel
+/-! NOTE on what the membership theorems of this section do and do not cover (audits r4 #6, r5 #6, r6 #8): the dtype tag of every leaf
+is written by `toNValue` (by construction) — a wrong dtype in the real code cannot falsify `….valid (toNValue …) = true`; dtypes and
+field order of the real observations are compared by the `mmst.spec` / `mmst.state` ops (`nvalue`: field order, shape, dtype, data) and
+`jax.eval_shape` in the sweeps.  Shapes are READ OFF the value by `toNValue` (widths off the first row): see `…_obs_valid_only`. -/
+
 /-! #### (wave 4) membership in the DECLARED specs: structure, shapes, dtypes and bounds -/
 open Sp PzS PkS
 
@@ -630,17 +635,28 @@ open Sp PzS PkS
 num_nodes_per_agent=3), time_limit=9) -/
 def mmstSmall : Cfg := { numAgents := 2, numNodes := 12, numNodesPerAgent := 3, timeLimit := 9, rConn := 10, rStep := -1, rNoop := -1 }
 
+/-- the spec-only configuration `spec-only-mmst-10x3x2`: MMST(SplitRandomGenerator(num_nodes=10, num_edges=14, max_degree=4,
+num_agents=3, num_nodes_per_agent=2), time_limit=11) -/
+def mmstSpecOnly : Cfg := { numAgents := 3, numNodes := 10, numNodesPerAgent := 2, timeLimit := 11, rConn := 10, rStep := -1, rNoop := -1 }
+
 /-- the model's `obsSpec` / `actionSpec` / reward and discount specs ARE the specs generated from the real spec objects
 (Gen/Specs.lean) for the catalogue configuration `mmst-small`: fields `node_types`, `adj_matrix`, `positions`, `step_count`,
 `action_mask` in this order; shapes `(N,)`, `(N, N)`, `(A,)`, `()`, `(A, N)`; dtypes int32 ×4, bool; bounds `[-1, 2A-1]`,
 `[0, 1]`, `[-1, N-1]`, `[0, time_limit]`, `[False, True]`.  (All leaves are in the generated table; every other adapter
-configuration is compared at run time by the `mmst.spec` op.) -/
+configuration is compared at run time by the `mmst.spec` op.)
+SPEC-ONLY second configuration `mmstSpecOnly` = MMST(SplitRandomGenerator(10, 14, 4, num_agents=3, num_nodes_per_agent=2), time_limit=11):
+`N = 10`, `A = 3`, `2A − 1 = 5`, `N − 1 = 9`, limit 11 pairwise distinct -/
 theorem mmst_obsSpec_generated :
     prefixed "observation_spec." (obsSpec mmstSmall) = declared "mmst-small" "observation_spec." ∧
     [("action_spec", actionSpec mmstSmall)] = declared "mmst-small" "action_spec" ∧
     [("reward_spec", rewardSpec)] = declared "mmst-small" "reward_spec" ∧
-    [("discount_spec", discountSpec)] = declared "mmst-small" "discount_spec" := by
-  refine ⟨by decide, by decide, by decide, by decide⟩
+    [("discount_spec", discountSpec)] = declared "mmst-small" "discount_spec" ∧
+    prefixed "observation_spec." (obsSpec mmstSpecOnly) = declared "spec-only-mmst-10x3x2" "observation_spec." ∧
+    [("action_spec", actionSpec mmstSpecOnly)] = declared "spec-only-mmst-10x3x2" "action_spec" ∧
+    [("reward_spec", rewardSpec)] = declared "spec-only-mmst-10x3x2" "reward_spec" ∧
+    [("discount_spec", discountSpec)] = declared "spec-only-mmst-10x3x2" "discount_spec" := by
+  refine ⟨by decide +kernel, by decide +kernel, by decide +kernel, by decide +kernel, by decide +kernel, by decide +kernel,
+    by decide +kernel, by decide +kernel⟩
 
 /-- the invariant behind the membership theorems — configured array shapes (`Shaped`), value ranges (`BInv`: positions in
 `[0, N)`, edge tables in `[-1, N)`, 0/1 adjacency matrix), a mask of shape `(A, N)` and a non-negative counter — holds for
@@ -688,7 +704,10 @@ theorem mmst_rollout_obs_valid (cfg : Cfg) (hA : 0 < cfg.numAgents) (hN : 0 < cf
 
 /-- what membership means (so the theorems above are not hollow): `validate` accepts an observation ONLY IF the arrays have
 the declared shapes, the labels lie in `[-1, 2A-1]`, the matrix is 0/1, the positions lie in `[-1, N-1]` and the counter in
-`[0, time_limit]` -/
+`[0, time_limit]`  CAVEAT (audits r4 #7, r5 #5, r6 #5): for every field that is a nested list, `toNValue` reads the widths off the FIRST row of the
+nested list, so the shape conjuncts here mean "row count, length of the first row, total number of cells" — a ragged value with the right total can be a
+member, and nothing is concluded about the later rows.  Rectangularity is part of the invariant (`SpecInv` / `Shaped` / `Rect…`) under which the
+forward theorems (`…_reset_obs_valid`, `…_step_obs_valid`, `…_along`) are proved, i.e. it holds of every EMITTED observation. -/
 theorem mmst_obs_valid_only (cfg : Cfg) (o : Obs) (h : (obsSpec cfg).valid (toNValue o) = true) :
     o.nodeTypes.length = cfg.numNodes ∧ (∀ v ∈ o.nodeTypes, -1 ≤ v ∧ v ≤ 2 * (cfg.numAgents : Int) - 1) ∧
     shape2 o.adj = [cfg.numNodes, cfg.numNodes] ∧ (∀ v ∈ o.adj.flatten, 0 ≤ v ∧ v ≤ 1) ∧
